@@ -5,7 +5,7 @@
 cd /verif
 export GOFLAGS=-mod=mod GOPROXY=off GOSUMDB=off GOTOOLCHAIN=local
 # optional arguments: seed ids (default: all)
-out=/verif/out/corpus; [ $# -gt 0 ] && out=/verif/out/corpus-sel; rm -rf $out; mkdir -p $out
+out=/verif/out/corpus; [ $# -gt 0 ] && out=/verif/out/corpus-sel; out=${OUTDIR:-$out}; rm -rf $out; mkdir -p $out
 one() {
   id=$1
   d=/verif/seeded/$id
@@ -20,7 +20,7 @@ one() {
   fi
   res=""
   for p in $prop $extra; do
-    bin/vcheck -repo $wt -property $p -out $out/$id -evidence-dir $out/$id/evidence > $out/$id.$p.log 2>&1
+    ${VCHECK:-bin/vcheck} -repo $wt -property $p -out $out/$id -evidence-dir $out/$id/evidence > $out/$id.$p.log 2>&1
     res="$res$(grep '^VIOLATION' $out/$id.$p.log | head -2 | sed 's/.*replays\///' | cut -c1-100 | tr '\n' ';')"
   done
   git -C /repo worktree remove --force $wt >/dev/null 2>&1; rm -rf $wt
